@@ -293,6 +293,10 @@ def run_check(cid: str, tier: str, seed: int, runs=None, wall=None, workers=None
         n_threads = len(os.listdir("/proc/self/task"))
         if n_threads != 1:
             raise HarnessError(f"preimport started threads ({n_threads}); refusing to fork")
+        import gc
+
+        gc.collect()
+        gc.freeze()  # imported modules never need collecting again: cheap gc in workers, less COW
     if os.environ.get("VERIF_DEBUG"):
         print(f"[debug] preimport done at {time.monotonic() - t0:.1f}s", file=sys.stderr)
     pool = ProcessPoolExecutor(max_workers=workers, mp_context=get_context("fork"),
